@@ -96,7 +96,7 @@ def strategy(tier):
 
 
 def examples(tier):
-    return 2400 if tier == "quick" else 20000
+    return 2400 if tier == "quick" else 100000
 
 
 def selection(case, ids):
